@@ -317,6 +317,8 @@ impl Debugger {
             self.instruction_count = 0;
         }
 
+        #[cfg(lace_verif)]
+        crate::verif::command_read();
         // Read and parse next command
         let command = Command::read_from(&mut self.command_reader, |error| {
             dprintln!(Alternate, Error, "CommandError", ["{}", error]);
